@@ -364,10 +364,12 @@ func (f *Func) reachTarget(
 			}
 		}
 
-		// If we're skipping because we have this value already, then
-		// note that we're using this input in the input set.
+		// If we're skipping because we have this value already, there is
+		// nothing to record: the value was either supplied or came from a
+		// path whose input is already in the input set. (Recording the
+		// requirement itself made Redefine demand intermediate values of
+		// a conversion chain as inputs.)
 		if skip {
-			state.InputSet[graph.VertexID(out)] = out
 			continue
 		}
 
